@@ -2,6 +2,7 @@ package main
 
 import (
 	"fmt"
+	"math"
 	"sync"
 	"math/rand"
 
@@ -333,6 +334,14 @@ func c13Pair(c *Ctx, r *rand.Rand, builder func() *network.Network, nIn int, fas
 	c.Eval(1)
 	detail := func() map[string]interface{} {
 		return map[string]interface{}{"network": desc, "fast_solver": fast, "history": P, "suffix": Q}
+	}
+	if !fast && r.Intn(40) == 0 {
+		// an instance that has been in use for a very long time: its per-node activation counters (int32, exported) stand just
+		// below their maximum and wrap around during the history - the state 2^31 sensor loads / activations lead to
+		for _, nd := range usedNet.AllNodes() {
+			nd.ActivationsCount = math.MaxInt32 - int32(r.Intn(3))
+		}
+		c.Count("history.activation_counters_wrap_around", 1)
 	}
 	before := used.ReadOutputs()
 	endedInError := false
